@@ -162,8 +162,8 @@ static void emit(const Def& d, int fmt, const Bytes& b) {
 }
 
 // pattern domains ------------------------------------------------------------------------------------------------
-static const uint8_t BND[] = {0x00, 0x01, 0x09, 0x0a, 0x10, 0x23, 0x24, 0x25, 0x59, 0x5a, 0x60, 0x63, 0x64, 0x7f, 0x80, 0x81,
-                              0x90, 0x99, 0x9a, 0xa0, 0xc8, 0xc9, 0xfe, 0xff};
+static const uint8_t BND[] = {0x00, 0x01, 0x09, 0x0a, 0x0c, 0x0d, 0x10, 0x17, 0x18, 0x19, 0x1f, 0x20, 0x23, 0x24, 0x25, 0x3b, 0x3c,
+                              0x59, 0x5a, 0x60, 0x63, 0x64, 0x7f, 0x80, 0x81, 0x90, 0x99, 0x9a, 0xa0, 0xc8, 0xc9, 0xfe, 0xff};
 static const int NBND = sizeof BND;
 
 typedef std::function<void(const Bytes&)> PatFn;
@@ -336,7 +336,7 @@ static void groupDates() {
           }
         }
         for (int yy = 0; yy < 256; yy++) for (int i = 0; i < NBND; i++) for (int j = 0; j < NBND; j++) {
-          if (!g_thorough && (i * NBND + j + yy) % 29 != 0) continue;
+          if (!g_thorough && (i * NBND + j + yy) % 53 != 0) continue;
           Bytes b{BND[i], BND[j]};
           if (four) b.push_back((uint8_t)g_rng->below(256));
           b.push_back((uint8_t)yy);
@@ -396,7 +396,7 @@ static void groupTimes() {
       });
       family(*d, f, "bnd", [&](const PatFn& fn) {
         for (int i = 0; i < NBND; i++) for (int j = 0; j < NBND; j++) for (int l = 0; l < NBND; l++)
-          if (g_thorough || (i + j * 5 + l * 3) % 4 == 0) fn(Bytes{BND[i], BND[j], BND[l]});
+          if (g_thorough || (i + j * 5 + l * 3) % 8 == 0) fn(Bytes{BND[i], BND[j], BND[l]});
         wide(3, g_thorough ? 20000 : 1000, false, fn);
       });
     }
